@@ -101,6 +101,7 @@ def id_taint_rule(run_, pkg):
         # local names bound to ids (flow-insensitive)
         tainted = set()
         dicts = set()
+        notdicts = set()
         for _ in range(3):
             for node in ast.walk(fn):
                 if isinstance(node, (ast.For, ast.comprehension)):
@@ -118,6 +119,8 @@ def id_taint_rule(run_, pkg):
                         tainted.add(node.targets[0].id)
                     if isinstance(node.value, (ast.Dict, ast.DictComp)):
                         dicts.add(node.targets[0].id)
+                    else:
+                        notdicts.add(node.targets[0].id)
         for node in ast.walk(fn):
             if not is_id_expr(node, tainted) or not isinstance(getattr(node, "ctx", ast.Load()), ast.Load):
                 continue
@@ -132,8 +135,14 @@ def id_taint_rule(run_, pkg):
                 bad = "arithmetic `%s`" % ast.unparse(par)[:60]
             elif isinstance(par, ast.Compare) and any(isinstance(o, ORDER_OPS) for o in par.ops):
                 bad = "ordering comparison `%s`" % ast.unparse(par)[:60]
-            elif isinstance(par, ast.Subscript) and par.slice is node and not (isinstance(par.value, ast.Name) and par.value.id in dicts) \
-                    and not is_dict_like(par.value):
+            elif isinstance(par, ast.Compare) and len(par.ops) == 1 and isinstance(par.ops[0], (ast.Eq, ast.NotEq)) and \
+                    not is_id_expr(par.comparators[0] if par.left is node else par.left, tainted) and \
+                    not (isinstance(par.comparators[0] if par.left is node else par.left, ast.Constant) and
+                         (par.comparators[0] if par.left is node else par.left).value is None):
+                other = par.comparators[0] if par.left is node else par.left
+                bad = "comparison with a number `%s` (ids are names: they may only be compared with ids)" % ast.unparse(par)[:60]
+            elif isinstance(par, ast.Subscript) and par.slice is node and not (isinstance(par.value, ast.Name) and par.value.id in (dicts - notdicts)) \
+                    and not (is_dict_like(par.value) and not (isinstance(par.value, ast.Name) and par.value.id in notdicts)):
                 bad = "position in a sequence `%s`" % ast.unparse(par)[:60]
             elif isinstance(par, ast.Call) and isinstance(par.func, ast.Name) and par.func.id in ("sorted", "min", "max", "range", "abs", "sum", "hash") and node in par.args:
                 bad = "numeric use `%s`" % ast.unparse(par)[:60]
@@ -241,3 +250,9 @@ def run(run_, pkg, tier):
     if run_.only is None:
         id_taint_rule(run_, pkg)
         gradient_index_rule(run_, pkg)
+        # scaling all information matrices scales chi^2: the stopping rule must depend on chi^2 only through the scale-free ratio
+        from .. import optim_rules
+        oa = optim_rules.analyse(pkg)
+        for f in oa.findings:
+            if f.key.startswith(("C12-T2/early-return-predicate", "C12-T2/converged@post", "C12-T2/early-return@")):
+                run_.check(f.ok, "C08-c/stopping-rule-scale-free/" + f.key, "C08-c-stopping-rule-scale-free", f.what, where=f.where)
